@@ -159,6 +159,24 @@ pub trait Check: Sync {
     fn nondeterminism_is_violation(&self) -> bool {
         false
     }
+    /// Isolation decided per scenario (default: the check-wide answer).  A scenario that may make
+    /// the code under test abort the process (allocation failure) or run without end belongs in a
+    /// child process even when the rest of the check runs in-process.
+    fn isolate_scenario(&self, _scenario: &J) -> bool {
+        self.isolate()
+    }
+    /// If the child process of an isolated scenario dies without a result (abort, signal), the
+    /// property itself may be what failed ("returns without panicking"): the class to report.
+    /// None = a harness error, as for every other check.
+    fn child_death_class(&self, _scenario: &J) -> Option<&'static str> {
+        None
+    }
+    /// Same for an isolated scenario that is still running when the child time limit expires and
+    /// whose termination within a bounded number of steps is what the property promises.
+    /// None = inconclusive (counted, decides nothing).
+    fn child_timeout_class(&self, _scenario: &J) -> Option<&'static str> {
+        None
+    }
     /// probes that should be non-zero in a healthy run (coverage warnings otherwise)
     fn expected_probes(&self) -> Vec<&'static str> {
         vec![]
@@ -339,7 +357,14 @@ pub fn replay(check: &dyn Check, path: &str) -> i32 {
         println!("NOT-REPRODUCED 8 fresh processes agree on this tree");
         return 0;
     }
-    match check.execute(&scenario) {
+    // a scenario that is isolated because it may kill its process is replayed in a child too
+    let replayed = if check.isolate_scenario(&scenario) && !check.isolate() {
+        let dir = std::env::var("VERIF_DIR").unwrap_or_else(|_| "/verif".to_string());
+        execute_isolated(check, &dir, &scenario)
+    } else {
+        check.execute(&scenario)
+    };
+    match replayed {
         Err(e) => {
             eprintln!("HARNESS-ERROR {}", e);
             2
@@ -398,7 +423,15 @@ pub fn execute_isolated(check: &dyn Check, verif_dir: &str, scenario: &J) -> Res
     let exe = std::env::current_exe().map_err(|e| e.to_string())?;
     let out_path = format!("{}.out", path);
     let out_file = std::fs::File::create(&out_path).map_err(|e| format!("child output file: {}", e))?;
-    let mut child = std::process::Command::new(exe)
+    // a scenario that may make the code under test allocate without bound gets a capped address space
+    let mut cmd = if check.child_death_class(scenario).is_some() {
+        let mut c = std::process::Command::new("/bin/sh");
+        c.arg("-c").arg("ulimit -v 8388608; exec \"$0\" \"$@\"").arg(&exe);
+        c
+    } else {
+        std::process::Command::new(&exe)
+    };
+    let mut child = cmd
         .arg(check.id())
         .arg("--exec-scenario")
         .arg(&path)
@@ -432,19 +465,36 @@ pub fn execute_isolated(check: &dyn Check, verif_dir: &str, scenario: &J) -> Res
         Some(s) => s,
         None => {
             let mut out = RunOut::default();
-            out.count("probe.scenarios_killed_after_timeout(inconclusive)", 1);
             let mut h = crate::prng::Hasher64::new();
             h.bytes(scenario.to_string().as_bytes());
             out.hash = h.finish();
+            match check.child_timeout_class(scenario) {
+                Some(class) => {
+                    out.nontrivial = true;
+                    out.violate(Violation::new(class, 0, format!("the scenario was still running after {} s in its own process and was killed", limit.as_secs())));
+                }
+                None => out.count("probe.scenarios_killed_after_timeout(inconclusive)", 1),
+            }
             return Ok(out);
         }
     };
     let outp = ChildOut { code: status.code() };
-    let line = text
-        .lines()
-        .rev()
-        .find(|l| l.starts_with("RUNOUT "))
-        .ok_or_else(|| format!("child produced no result (exit {:?})", outp.code))?;
+    let line = match text.lines().rev().find(|l| l.starts_with("RUNOUT ")) {
+        Some(l) => l,
+        None => {
+            if let Some(class) = check.child_death_class(scenario) {
+                use std::os::unix::process::ExitStatusExt;
+                let mut out = RunOut::default();
+                let mut h = crate::prng::Hasher64::new();
+                h.bytes(scenario.to_string().as_bytes());
+                out.hash = h.finish();
+                out.nontrivial = true;
+                out.violate(Violation::new(class, 0, format!("the process executing the scenario died without returning (exit status {:?}, signal {:?})", outp.code, status.signal())));
+                return Ok(out);
+            }
+            return Err(format!("child produced no result (exit {:?})", outp.code));
+        }
+    };
     let j = json::parse(&line["RUNOUT ".len()..])?;
     if let Some(e) = j.get("error").and_then(|x| x.as_str()) {
         return Err(e.to_string());
@@ -457,7 +507,7 @@ pub fn execute_isolated(check: &dyn Check, verif_dir: &str, scenario: &J) -> Res
 /// one scenario into the next: a scenario's outcome is a function of the scenario alone, and a
 /// replay of its file (main thread of a fresh process) sees the same initial conditions.
 fn exec_dispatch(check: &dyn Check, verif_dir: &str, scenario: &J) -> Result<RunOut, String> {
-    if check.isolate() {
+    if check.isolate_scenario(scenario) {
         return execute_isolated(check, verif_dir, scenario);
     }
     std::thread::scope(|s| {
